@@ -1262,6 +1262,75 @@ def _main_config(name, ck):
 _MAIN = ["MCMC+Scaler+SlidingWindow", "MCMC+HMC+AdaptiveStepSize+MassMatrixAdaptor", "MCMC+HMC+DualAveragingStepSize", "Optimizer+Adam+StepLR"]
 
 
+def _two_stage_case():
+    """two algorithms with their own checkpoint files, restarted with two -c options (the option is `append`)"""
+    import shutil
+    import subprocess
+    import sys
+    import tempfile
+    from vt.runner import REPO
+    d = tempfile.mkdtemp(prefix="c17main2-")
+    try:
+        cka, ckb = os.path.join(d, "stage1.json"), os.path.join(d, "stage2.json")
+        cfg = os.path.join(d, "config.json")
+
+        def normal(id_, x, loc):
+            return {"id": id_, "type": "Distribution", "distribution": "torch.distributions.Normal", "x": x,
+                    "parameters": {"loc": loc, "scale": {"id": id_ + ".scale", "type": "Parameter", "tensor": [1.0, 1.0]}}}
+        def joint(id_, d):
+            return {"id": id_, "type": "JointDistributionModel", "distributions": [d]}
+        conf = [joint("ja", normal("na", {"id": "a", "type": "Parameter", "tensor": [3.0, -2.0]}, {"id": "ja.loc", "type": "Parameter", "tensor": [0.0, 4.0]})),
+                {"id": "opt1", "type": "Optimizer", "algorithm": "torch.optim.SGD", "options": {"lr": 0.1, "momentum": 0.5}, "maximize": True, "loss": "ja",
+                 "parameters": ["a"], "iterations": 8, "checkpoint": cka, "checkpoint_frequency": 4},
+                joint("jb", normal("nb", {"id": "b", "type": "Parameter", "tensor": [1.0, 1.0]}, "a")),
+                {"id": "opt2", "type": "Optimizer", "algorithm": "torch.optim.SGD", "options": {"lr": 0.1, "momentum": 0.5}, "maximize": True, "loss": "jb",
+                 "parameters": ["b"], "iterations": 8, "checkpoint": ckb, "checkpoint_frequency": 4}]
+        with open(cfg, "w") as f:
+            json.dump(conf, f)
+        env = dict(os.environ, PYTHONDONTWRITEBYTECODE="1", OMP_NUM_THREADS="1")
+
+        def run(extra, out="-"):
+            return subprocess.run([sys.executable, "-c", _DRIVER, REPO, out, cfg, "-s", "7"] + extra, cwd=d, env=env,
+                                  capture_output=True, text=True, timeout=300)
+        r1 = run([])
+        if r1.returncode != 0 or not (os.path.exists(cka) and os.path.exists(ckb)):
+            raise Undecided("two-stage run of main() did not produce both checkpoints (rc=%s): %s" % (r1.returncode, r1.stderr[-400:]))
+        saved = [json.load(open(cka)), json.load(open(ckb))]
+        seen = os.path.join(d, "seen.json")
+        r2 = run(["-c", cka, "-c", ckb, "--dry"], seen)
+        res = {"config": "two optimisers, two checkpoint files", "restart_rc": r2.returncode, "restart_error": None, "diffs": []}
+        if r2.returncode != 0 or "Traceback" in r2.stderr:
+            res["restart_error"] = r2.stderr.strip().splitlines()[-3:]
+            return res
+        got = json.load(open(seen)) if os.path.exists(seen) else []
+        if len(got) != 2:
+            res["diffs"].append("load_state_dict was called %d times, expected once per algorithm" % len(got))
+        else:
+            for k in range(2):
+                res["diffs"] += sh.same(saved[k], got[k], "checkpoint%d" % (k + 1))
+        return res
+    finally:
+        shutil.rmtree(d, ignore_errors=True)
+
+
+def ob_main_two_files():
+    def fn():
+        r = _two_stage_case()
+        if r["restart_error"] or r["diffs"]:
+            raise Refuted("main() restarted with two -c checkpoint files: %s" % (r["restart_error"] or "; ".join(r["diffs"][:3])), witness=r,
+                          replay={"kind": "custom", "contract": "C17", "func": "replay_two_files", "args": {}}, confirmed=True)
+        return {"backend": "concrete (bounded)", "cases": 1,
+                "statement": "two optimisers with separate checkpoint files; restart with -c file1 -c file2: every algorithm gets its state and every parameter of BOTH files is re-injected"}
+    return fn
+
+
+def replay_two_files(args):
+    r = _two_stage_case()
+    if r["restart_error"] or r["diffs"]:
+        return False, "restart with two checkpoint files: %s %s" % (r["restart_error"] or "", r["diffs"][:4])
+    return True, "both checkpoint files re-injected"
+
+
 def _main_case(name):
     import shutil
     import subprocess
@@ -1493,6 +1562,7 @@ def obligations(tier, seed):
         obs.append(Ob("C17.optim[%s]" % name, "B", ob_optim(name), clause="optimiser moments and scheduler (bounded)", funcs=funcs, timeout=300))
     for name in _MAIN:
         obs.append(Ob("C17.main[%s]" % name, "B", ob_main(name), clause="restart through main() (bounded)", funcs=funcs, timeout=600))
+    obs.append(Ob("C17.main[two checkpoint files]", "B", ob_main_two_files(), clause="restart through main() with several -c files (bounded)", funcs=funcs, timeout=600))
     # vacuity: must-fail twins
     tw = [("TwinSkipsField", "state", "loader skips one field"), ("TwinSwapsKeys", "state", "two saved keys swapped"),
           ("TwinReadsUnknownKey", "restart_ok", "loader reads a key that is never written"), ("TwinDropsWindow", "state", "loader drops a container")]
